@@ -69,6 +69,8 @@ def gen_case(rnd, tier: str, i: Any) -> Dict[str, Any]:
             # names that consist of one bracketed group only: their short name is the empty string
             p["ops_pool"] = ["aten::mm", "aten::add"] + bracket_names
         tr = gen_sim.gen_trace(rnd, **p)
+        # launch calls / device activities that the profiler did not record (an activity without its launch call belongs to no iteration)
+        gen_sim.drop_events(rnd, tr, p_launch=rnd.choice([0, 0, 0.15]), p_kernel=rnd.choice([0, 0, 0.1]))
         control[f"rank{r}.json"] = tr
         if mode == "vocab":
             p2 = dict(p, ops_pool=["aten::conv2d", "aten::mm", "aten::gelu"])
